@@ -16,14 +16,19 @@ import translate_locks
 # ------------------------------------------------------------------ model <-> implementation vocabulary
 
 # program counter of the model -> the file-system call the implementation is parked at
+_GIVE = {"Isdir": "isdir", "ExistsF": "existsf", "Remove": "remove", "Count": "walk", "Rmdir": "rmdir"}
 LOC_OP = {
     "LMkdir": "mkdir", "LListAll": "glob*", "LListAll2": "glob*", "LExists": "exists", "LScanX": "globx",
     "LScanX2": "globx", "LCreate": "open", "LHeld": "hold", "LHeldNoLock": "hold",
-    "LGiveIsdir": "isdir", "LGiveExistsF": "existsf", "LGiveRemove": "remove", "LGiveCount": "walk",
-    "LGiveRmdir": "rmdir", "LBackIsdir": "isdir", "LBackExistsF": "existsf", "LBackRemove": "remove",
-    "LBackCount": "walk", "LBackRmdir": "rmdir", "LDone": "done", "LFailed": "failed", "LCrashed": "crashed",
+    "LDone": "done", "LFailed": "failed", "LCrashed": "crashed",
 }
+for _m in ("LGive", "LBack", "LUnwF", "LUnwC"):
+    for _g, _op in _GIVE.items():
+        LOC_OP[_m + _g] = _op
+NOSTACK = ("hold", "done", "failed", "crashed")
 TERMINAL = c09_sched.TERMINAL
+# the three versions of the protocol the model knows: (second look, release on failure)
+REPAIRED, NORELEASE, PINNED = (True, True), (True, False), (False, False)
 
 
 def kinds_of(procs):
@@ -34,10 +39,20 @@ def roots_of(procs):
     return {p["pid"]: p.get("root") for p in procs}
 
 
-def model_line(fx, procs, sched):
-    ps = ";".join("%d,%s,%s,%d" % (p["pid"], p["kind"], "-" if p.get("root") is None else p["root"],
-                                   p.get("ntry", 2)) for p in procs)
-    return "\t".join(["trace", "1" if fx else "0", ps, ",".join("%d:%d" % (a, b) for a, b in sched)])
+def paths_of(procs):
+    return {p["pid"]: list(p.get("path") or [0]) for p in procs}
+
+
+def nstacks_of(case):
+    return int(case.get("stacks", 1))
+
+
+def model_line(flags, procs, sched, nstacks=1):
+    ps = ";".join("%d,%s,%s,%d,%s" % (p["pid"], p["kind"], "-" if p.get("root") is None else p["root"],
+                                      p.get("ntry", 2), ".".join(str(k) for k in (p.get("path") or [0])))
+                  for p in procs)
+    return "\t".join(["trace", "1" if flags[0] else "0", "1" if flags[1] else "0", str(nstacks), ps,
+                      ",".join("%d:%d" % (a, b) for a, b in sched)])
 
 
 def parse_model(line, procs):
@@ -45,17 +60,24 @@ def parse_model(line, procs):
     f = line.split("\t")
     if f[0] != "ok":
         raise common.ModelError("model: " + line[:200])
-    kinds = kinds_of(procs)
+    kinds, paths = kinds_of(procs), paths_of(procs)
     out = []
     for st in f[1].split(";"):
         d, fs, ps, ok = st.split("|")
-        files = sorted(int(x) for x in fs.split(",") if x)
+        files = []
+        for per in fs.split("/"):
+            files.append(",".join("%s%d" % (kinds[x], x) for x in sorted(int(x) for x in per.split(",") if x)))
         ops = []
         for e in ps.split(","):
-            pid, loc, _i = e.split(":")
-            op = LOC_OP[loc] if loc != "LValidate" else ("glob*" if kinds[int(pid)] == "E" else "globx")
-            ops.append("%s:%s" % (pid, op))
-        canon = "%s|%s|%s" % ("D" if d == "1" else "-", ",".join("%s%d" % (kinds[x], x) for x in files), ",".join(ops))
+            pid, loc, _i, n, j = e.split(":")
+            pid = int(pid)
+            op = LOC_OP[loc] if loc != "LValidate" else ("glob*" if kinds[pid] == "E" else "globx")
+            if op not in NOSTACK:
+                w = int(j) if loc.startswith(("LGive", "LUnw")) else int(n)
+                k = paths[pid][w] if w < len(paths[pid]) else None
+                op += "" if k == 0 else "@%s" % k
+            ops.append("%d:%s" % (pid, op))
+        canon = "%s|%s|%s" % ("".join("D" if x == "1" else "-" for x in d), "/".join(files), ",".join(ops))
         out.append((canon, st, ok == "1"))
     return out
 
@@ -72,6 +94,11 @@ def ops_of(canon):
     return {int(e.split(":")[0]): e.split(":")[1] for e in canon.split("|")[2].split(",")}
 
 
+def files_of(canon):
+    """per stack, the list of lock files as kind+pid"""
+    return [[x for x in per.split(",") if x] for per in canon.split("|")[1].split("/")]
+
+
 # ------------------------------------------------------------------ the property's own oracle (on the implementation)
 
 def related(roots, p, q):
@@ -79,26 +106,38 @@ def related(roots, p, q):
 
 
 def mutex_violation(procs, canon):
-    """the pair of unrelated simultaneous holders of which one is exclusive, or None"""
-    kinds, roots = kinds_of(procs), roots_of(procs)
+    """the pair of unrelated simultaneous holders that lock a common stack and of which one is exclusive, or None"""
+    kinds, roots, paths = kinds_of(procs), roots_of(procs), paths_of(procs)
     holders = [p for p, op in sorted(ops_of(canon).items()) if op == "hold"]
     for i, p in enumerate(holders):
         for q in holders[i + 1:]:
-            if not related(roots, p, q) and (kinds[p] == "E" or kinds[q] == "E"):
+            if not related(roots, p, q) and (kinds[p] == "E" or kinds[q] == "E") and set(paths[p]) & set(paths[q]):
                 return (p, q)
     return None
 
 
 def residue(canon):
-    d, files, _ = canon.split("|")
-    return all(op in TERMINAL for op in ops_of(canon).values()) and (d == "D" or files != "")
+    """every process has ended and a lock directory is still there"""
+    d = canon.split("|")[0]
+    return all(op in TERMINAL for op in ops_of(canon).values()) and ("D" in d or any(files_of(canon)))
+
+
+def ended_owner(procs, canon):
+    """(pid, stack) of a process that has ended (done, failed or crashed) and still has a lock file, or None"""
+    kinds = kinds_of(procs)
+    for pid, op in sorted(ops_of(canon).items()):
+        if op in TERMINAL:
+            for k, fl in enumerate(files_of(canon)):
+                if kinds[pid] + str(pid) in fl:
+                    return (pid, k, op)
+    return None
 
 
 def window(procs, sched, trace, k, pair):
     """which check-then-act window of takeLocks the violation at trace[k] went through (signature of D10)"""
     kinds = kinds_of(procs)
     p, q = pair
-    files = trace[k].split("|")[1].split(",")
+    files = [x for fl in files_of(trace[k]) for x in fl]
     for x in pair:
         if kinds[x] + str(x) not in files:
             return "K3"                 # holds without a lock file: the directory vanished before os.path.exists
@@ -111,7 +150,7 @@ def window(procs, sched, trace, k, pair):
 
 
 def _window_shared(s, sched, trace, k):
-    # the shared requester: when did it pass its scan, when did it create its file?
+    # the shared requester: when did it pass its scan, when did it create its file?  (single stack)
     t_open = max(j for j in range(1, k + 1) if sched[j - 1][0] == s and ops_of(trace[j - 1])[s] == "open")
     t_scan = max(j for j in range(1, t_open) if sched[j - 1][0] == s and ops_of(trace[j - 1])[s] == "globx")
     if any(trace[j].startswith("-") for j in range(t_scan, t_open)):
@@ -131,21 +170,32 @@ def run_impl(cases, chunk=1500):
     return out
 
 
+def shape_of(c):
+    return "".join(p["kind"] + ("c" if p.get("root") is not None else "") +
+                   ("" if nstacks_of(c) == 1 else "".join(str(k) for k in (p.get("path") or [0])))
+                   for p in c["procs"])
+
+
+def small_case(c, sched):
+    return {"mode": "lock", "stacks": nstacks_of(c), "procs": c["procs"], "schedule": [list(x) for x in sched],
+            "drain": False}
+
+
 def check_cases(ctx, cases, key, validate=True):
     """run implementation and model on the cases, compare step by step, evaluate the oracle.  Returns the
     list of (effective schedule, model states) per case."""
     ires = run_impl(cases)
-    lines = [model_line(True, c["procs"], [tuple(x) for x in r["schedule"]]) for c, r in zip(cases, ires)]
+    lines = [model_line(REPAIRED, c["procs"], [tuple(x) for x in r["schedule"]], nstacks_of(c))
+             for c, r in zip(cases, ires)]
     mres = [parse_model(l, c["procs"]) for c, l in zip(cases, ctx.model(lines))]
     redo = []
     results = []
     for idx, (c, r, m) in enumerate(zip(cases, ires, mres)):
         sched = [tuple(x) for x in r["schedule"]]
         trace = r["trace"]
-        busy = max(sum(1 for op in ops_of(t).values() if op not in TERMINAL and op != "mkdir") for t in trace)
-        ctx.count(1, key=key + "/" + "".join(p["kind"] + ("c" if p.get("root") is not None else "")
-                                            for p in c["procs"]),
-                  nontrivial=lines[idx] if busy >= 2 else None)
+        busy = max(sum(1 for op in ops_of(t).values() if op not in TERMINAL and not op.startswith("mkdir"))
+                   for t in trace)
+        ctx.count(1, key=key + "/" + shape_of(c), nontrivial=lines[idx] if busy >= 2 else None)
         # which branches of the model this trace exercises (evidence: every arrow validated at least once)
         for k, (pid, _ch) in enumerate(sched):
             if k + 1 < len(m):
@@ -167,36 +217,52 @@ def check_cases(ctx, cases, key, validate=True):
         for k, t in enumerate(trace):
             pair = mutex_violation(c["procs"], t)
             if pair is not None:
-                small = {"mode": "lock", "procs": c["procs"], "schedule": [list(x) for x in sched[:k]], "drain": False}
                 w = window(c["procs"], sched, trace, k, pair)
-                ctx.fail("mutex", small, expected="no two unrelated holders with an exclusive one",
+                ctx.fail("mutex", small_case(c, sched[:k]), expected="no two unrelated holders with an exclusive one",
                          observed={"state": t, "holders": list(pair), "window": w, "step": k},
                          what="processes %d and %d both hold the lock of the stack (window %s)" % (pair[0], pair[1], w))
                 break
+        for k, t in enumerate(trace):
+            eo = ended_owner(c["procs"], t)
+            if eo is not None:
+                ctx.fail("residue-after-end", small_case(c, sched[:k]),
+                         expected="a process that has ended owns no lock file",
+                         observed={"state": t, "process": eo[0], "stack": eo[1], "ended": eo[2], "step": k},
+                         what="process %d has %s but its lock file on stack %d is still there" % (eo[0], eo[2], eo[1]))
+                break
         if residue(trace[-1]):
-            ctx.fail("residue", {"mode": "lock", "procs": c["procs"], "schedule": [list(x) for x in sched],
-                                 "drain": False},
+            ctx.fail("residue", small_case(c, sched),
                      expected="no lock directory once every process has finished", observed={"state": trace[-1]},
                      what="lock directory left behind")
         results.append((sched, m))
     if redo:
-        # does the implementation follow the pinned protocol instead?  (diagnosis only)
-        plines = [model_line(False, cases[i]["procs"], [tuple(x) for x in ires[i]["schedule"]]) for i, _ in redo[:200]]
-        pres = ctx.model(plines)
-        for (i, bad), pl in zip(redo, pres + [None] * len(redo)):
-            where = "state %d of the trace" % bad
-            if pl is not None:
+        # does the implementation follow an earlier version of the protocol instead?  (diagnosis only)
+        sub = redo[:200]
+        alt = {}
+        for name, flags in (("WITHOUT release-on-failure", NORELEASE), ("PINNED", PINNED)):
+            out = ctx.model([model_line(flags, cases[i]["procs"], [tuple(x) for x in ires[i]["schedule"]],
+                                        nstacks_of(cases[i])) for i, _ in sub])
+            for (i, _), pl in zip(sub, out):
                 pm = parse_model(pl, cases[i]["procs"])
                 tr = ires[i]["trace"]
-                if all(k < len(pm) and pm[k][0] == tr[k] for k in range(len(tr))):
-                    where += "; the implementation agrees with the model of the PINNED protocol on this schedule"
+                if i not in alt and all(k < len(pm) and pm[k][0] == tr[k] for k in range(len(tr))):
+                    alt[i] = name
+        for i, bad in redo:
+            where = "state %d of the trace" % bad
+            if i in alt:
+                where += "; the implementation agrees with the model of the protocol %s on this schedule" % alt[i]
             mm = mres[i][bad][0] if bad < len(mres[i]) else None
-            ctx.disagree({"mode": "lock", "procs": cases[i]["procs"], "schedule": ires[i]["schedule"][:bad],
-                          "drain": False}, mm, ires[i]["trace"][bad], where=where)
+            ctx.disagree(small_case(cases[i], ires[i]["schedule"][:bad]), mm, ires[i]["trace"][bad], where=where)
     return results
 
 
 # ------------------------------------------------------------------ exhaustive exploration, memoised on the model state
+
+TWO_STACK_QUICK = [("E01-S1", "E", [0, 1], "S", [1]), ("S01-E1", "S", [0, 1], "E", [1]),
+                   ("E01-E10", "E", [0, 1], "E", [1, 0])]
+TWO_STACK_THOROUGH = [("E01-E1", "E", [0, 1], "E", [1]), ("S01-E10", "S", [0, 1], "E", [1, 0]),
+                      ("E01-E01", "E", [0, 1], "E", [0, 1]), ("S01-S10", "S", [0, 1], "S", [1, 0])]
+
 
 def procs2(k1, k2, child=False, ntry=2):
     return [{"pid": 1, "kind": k1, "root": None, "ntry": ntry},
@@ -204,65 +270,79 @@ def procs2(k1, k2, child=False, ntry=2):
 
 
 def sym_key(raw, procs):
-    """state key up to renaming of interchangeable processes (same kind, root and budget, nobody's root): the
-    protocol treats pids uniformly, so one representative per orbit is explored"""
+    """state key up to renaming of interchangeable processes (same kind, root, budget and path, nobody's root):
+    the protocol treats pids uniformly, so one representative per orbit is explored"""
     best = raw
     cls = {}
     rooted = {p.get("root") for p in procs}
     for p in procs:
         if p["pid"] not in rooted:
-            cls.setdefault((p["kind"], p.get("root"), p.get("ntry", 2)), []).append(p["pid"])
+            cls.setdefault((p["kind"], p.get("root"), p.get("ntry", 2), tuple(p.get("path") or [0])), []).append(p["pid"])
     for group in cls.values():
         if len(group) == 2:
             a, b = group
             sw = {a: b, b: a}
             d, fs, ps, ok = raw.split("|")
-            fs2 = ",".join(str(sw.get(int(x), int(x))) for x in fs.split(",") if x)
+            fs2 = "/".join(",".join(str(sw.get(int(x), int(x))) for x in per.split(",") if x) for per in fs.split("/"))
             ent = {}
             for e in ps.split(","):
-                pid, loc, i = e.split(":")
-                ent[sw.get(int(pid), int(pid))] = (loc, i)
-            ps2 = ",".join("%d:%s:%s" % (pid, ent[pid][0], ent[pid][1]) for pid in sorted(ent))
+                f = e.split(":")
+                ent[sw.get(int(f[0]), int(f[0]))] = f[1:]
+            ps2 = ",".join("%d:%s" % (pid, ":".join(ent[pid])) for pid in sorted(ent))
             best = min(best, "|".join([d, fs2, ps2, ok]))
     return best
 
 
+def listing_size(raw, procs, p):
+    """number of exclusive lock files on the stack process p is working on (for the choice of listing order)"""
+    kinds, paths = kinds_of(procs), paths_of(procs)
+    for e in raw.split("|")[2].split(","):
+        f = e.split(":")
+        if int(f[0]) == p:
+            w = int(f[3])
+            if w >= len(paths[p]):
+                return 0
+            per = raw.split("|")[1].split("/")
+            k = paths[p][w]
+            return sum(1 for x in per[k].split(",") if x and kinds[int(x)] == "E") if k < len(per) else 0
+    return 0
+
+
 def explore(ctx, configs, max_states, deadline=None):
-    """Breadth-first over the states of the model, all configurations (label, procs) in lock step; every
-    transition found is replayed on the implementation (from the empty stack, along the representative
-    schedule of its source state) and compared.  Returns True when every state space was exhausted."""
-    inits = ctx.model([model_line(True, procs, []) for _, procs in configs])
+    """Breadth-first over the states of the model, all configurations (label, procs, nstacks) in lock step; every
+    transition found is replayed on the implementation (from empty stacks, along the representative schedule of
+    its source state) and compared.  Returns True when every state space was exhausted."""
+    inits = ctx.model([model_line(REPAIRED, procs, [], ns) for _, procs, ns in configs])
     book = []
-    for (label, procs), line in zip(configs, inits):
+    for (label, procs, ns), line in zip(configs, inits):
         init = parse_model(line, procs)[0]
-        book.append({"label": label, "procs": procs, "frontier": [()], "seen": {sym_key(init[1], procs)}, "last": {(): init},
-                     "ntrans": 0, "complete": True})
+        book.append({"label": label, "procs": procs, "stacks": ns, "frontier": [()],
+                     "seen": {sym_key(init[1], procs)}, "last": {(): init}, "ntrans": 0, "complete": True,
+                     "optional": len(procs) > 2 or ns > 1})
     import time
     while any(b["frontier"] for b in book):
         cand = []
         for b in book:
-            if deadline is not None and time.time() > deadline and len(b["procs"]) > 2 and b["frontier"]:
-                b["complete"] = False      # out of time: the three-process space is left to the thorough tier
+            if deadline is not None and time.time() > deadline and b["optional"] and b["frontier"]:
+                b["complete"] = False      # out of time: the rest of this space is left to the thorough tier
                 b["frontier"] = []
                 ctx.notes.append("exhaustive exploration of %s cut short by the time budget" % b["label"])
                 continue
             pids = [p["pid"] for p in b["procs"]]
-            kinds = kinds_of(b["procs"])
             for pi in b["frontier"]:
                 canon, raw, _ = b["last"][pi]
                 ops = ops_of(canon)
-                nex = sum(1 for x in raw.split("|")[1].split(",") if x and kinds[int(x)] == "E")
                 for p in pids:
                     if ops[p] in TERMINAL:
                         continue
-                    loc = [e.split(":")[1] for e in raw.split("|")[2].split(",") if int(e.split(":")[0]) == p][0]
-                    for ch in (range(nex) if loc == "LScanX2" and nex >= 2 else [0]):
+                    nex = listing_size(raw, b["procs"], p) if loc_of(raw, p) == "LScanX2" else 0
+                    for ch in (range(nex) if nex >= 2 else [0]):
                         cand.append((b, pi + ((p, ch),)))
             b["frontier"] = []
         if not cand:
             break
-        cases = [{"mode": "lock", "procs": b["procs"], "schedule": [list(x) for x in pi], "drain": False,
-                  "label": b["label"]} for b, pi in cand]
+        cases = [{"mode": "lock", "stacks": b["stacks"], "procs": b["procs"], "schedule": [list(x) for x in pi],
+                  "drain": False, "label": b["label"]} for b, pi in cand]
         res = check_cases(ctx, cases, "exhaustive")
         for (b, pi), (sched, m) in zip(cand, res):
             b["ntrans"] += 1
@@ -291,6 +371,13 @@ def gen_random(rng):
     roots = {"flat": [None, None, None], "child": [None, 1, None], "siblings": [None, 1, 1],
              "chain": [None, 1, 1]}[shape]
     procs = [{"pid": i + 1, "kind": kinds[i], "root": roots[i], "ntry": rng.choice([1, 2, 2, 3])} for i in range(3)]
+    stacks = rng.choice([1, 1, 2, 2, 3])
+    if stacks > 1:
+        # each process locks one or several of the stacks, in an order of its own (EUPS_PATH orders differ)
+        for p in procs:
+            ks = list(range(stacks))
+            rng.shuffle(ks)
+            p["path"] = ks[:rng.choice([1, 2, 2, stacks])]
     n = rng.choice([8, 14, 20, 30, 45])
     # bursts: a process tends to run a few calls in a row, as real processes do
     sched = []
@@ -298,7 +385,7 @@ def gen_random(rng):
         p = rng.choice([1, 2, 3])
         for _ in range(rng.choice([1, 1, 2, 3, 5])):
             sched.append([p, rng.choice([0, 0, 0, 1, 2])])
-    return {"mode": "lock", "procs": procs, "schedule": sched, "drain": True, "shape": shape}
+    return {"mode": "lock", "stacks": stacks, "procs": procs, "schedule": sched, "drain": True, "shape": shape}
 
 
 # ------------------------------------------------------------------ which command takes which lock
@@ -432,6 +519,15 @@ def m_k_windows(f):
     return f["kind"] == "mutex" and (f.get("observed") or {}).get("window") in ("K1", "K2", "K3", "K1-siblings")
 
 
+def m_residue_after_failure(f):
+    """a takeLocks that failed on a later stack of its path left its lock on an earlier one"""
+    c = f["input"]
+    o = f.get("observed") or {}
+    if f["kind"] == "residue-after-end":
+        return o.get("ended") in ("failed", "crashed") and len(paths_of(c["procs"])[o["process"]]) > 1
+    return f["kind"] == "residue" and any(len(pa) > 1 for pa in paths_of(c["procs"]).values())
+
+
 def m_tags_option_shared(f):
     return f["kind"] == "updater-not-exclusive" and f["input"].get("command") in ("tags --clone", "tags --delete")
 
@@ -451,13 +547,17 @@ def corpus_cases():
 def setup_ctx(ctx):
     ctx.matchers["c09.k_windows"] = m_k_windows
     ctx.matchers["c09.tags_option_shared"] = m_tags_option_shared
-    ctx.rule = ("lock protocol: every interleaving of the file-system calls of two processes (kinds SS SE ES EE, and "
-                "the four parent/child combinations with the child inheriting EUPS_LOCK_PID), retry budget 2, explored "
-                "breadth-first and memoised on the model state, every transition replayed on the real lock.py; plus "
-                "random burst schedules of three processes (flat, child, siblings; budgets 1-3; random directory "
-                "order) run to completion.  A schedule is non-trivial when at some point two processes are inside "
-                "takeLocks/giveLocks at once; distinct = distinct (configuration, schedule).  Registration: every "
-                "command of the two lists dispatched through the real EupsCmd.run with takeLocks spied.")
+    ctx.matchers["c09.residue_after_failure"] = m_residue_after_failure
+    ctx.rule = ("lock protocol: every interleaving of the file-system calls of two processes on one stack (kinds SS SE "
+                "ES EE, and the four parent/child combinations with the child inheriting EUPS_LOCK_PID; retry budget "
+                "2), of two processes on two stacks (one locks both, the other the second only or both in the "
+                "opposite order) and of three processes SEE with one attempt each, explored breadth-first and memoised "
+                "on the model state (up to renaming of interchangeable processes), every transition replayed on the "
+                "real lock.py; plus random burst schedules of three processes on 1-3 stacks (flat, child, siblings; "
+                "budgets 1-3; paths in orders of their own; random directory order) run to completion.  A schedule "
+                "is non-trivial when at some point two processes are inside takeLocks/giveLocks at once; distinct = "
+                "distinct (configuration, schedule).  Registration: every command of the two lists dispatched "
+                "through the real EupsCmd.run with takeLocks spied.")
     ctx.trusted_base = common.COMMON_TRUSTED + [
         "modelled, not verified: POSIX atomicity of mkdir, open(O_CREAT|O_EXCL), unlink, rmdir (fails on a non-empty "
         "directory); a directory listing returns the entries present at the instant of the call",
@@ -467,7 +567,7 @@ def setup_ctx(ctx):
         "the running cmd module and the spied takeLocks calls",
     ]
     ctx.assumptions = [
-        "one stack, one takeLocks followed by one giveLocks per process, ntry >= 1",
+        "one takeLocks (on a path of distinct stacks) followed by one giveLocks per process, ntry >= 1",
         "only EEXIST failures of mkdir are modelled (EACCES / read-only stacks, for which takeLocks deliberately "
         "proceeds unlocked, are outside the property)",
         "signals, atexit handlers, hooks.config.site.lockDirectoryBase relocation, NFS and pid reuse are not modelled",
@@ -516,17 +616,22 @@ def run(ctx):
     configs = []
     for k1 in "SE":
         for k2 in "SE":
-            configs.append((k1 + k2, procs2(k1, k2)))
-            configs.append((k1 + k2 + "-child", procs2(k1, k2, child=True)))
+            configs.append((k1 + k2, procs2(k1, k2), 1))
+            configs.append((k1 + k2 + "-child", procs2(k1, k2, child=True), 1))
+    # two stacks: a process that locks both, in either order, against one that locks the second only or both in
+    # the opposite order (takeLocks fails on its second stack after having locked its first)
+    for label, k1, path1, k2, path2 in TWO_STACK_QUICK + (TWO_STACK_THOROUGH if ctx.tier == "thorough" else []):
+        configs.append((label, [{"pid": 1, "kind": k1, "root": None, "ntry": 2, "path": path1},
+                                {"pid": 2, "kind": k2, "root": None, "ntry": 2, "path": path2}], 2))
     # three processes, one attempt each: the smallest setting in which a process can come and go while another
     # is parked between two of its calls (windows K2 and K3 need a third party)
-    configs.append(("SEE-ntry1", [{"pid": i + 1, "kind": k, "root": None, "ntry": 1} for i, k in enumerate("SEE")]))
+    configs.append(("SEE-ntry1", [{"pid": i + 1, "kind": k, "root": None, "ntry": 1} for i, k in enumerate("SEE")], 1))
     if ctx.tier == "thorough":
         for ks in ("SSE", "SSS", "EEE"):
-            configs.append((ks + "-ntry1", [{"pid": i + 1, "kind": k, "root": None, "ntry": 1} for i, k in enumerate(ks)]))
+            configs.append((ks + "-ntry1", [{"pid": i + 1, "kind": k, "root": None, "ntry": 1} for i, k in enumerate(ks)], 1))
         configs.append(("E+siblings-ES-ntry1",
                         [{"pid": 1, "kind": "E", "root": None, "ntry": 1}, {"pid": 2, "kind": "E", "root": 1, "ntry": 1},
-                         {"pid": 3, "kind": "S", "root": 1, "ntry": 1}]))
+                         {"pid": 3, "kind": "S", "root": 1, "ntry": 1}], 1))
     complete = explore(ctx, configs, cap, deadline=(ctx.t0 + 75) if ctx.tier == "quick" else None)
     ctx.exhaustive = complete
     lap("exhaustive")
